@@ -341,7 +341,8 @@ def run_case(params: dict) -> dict:
                     if isinstance(last, AddUser.Request) and n_ not in unknown:
                         burst.append(GetUserStatus.Response(n_, STATUS[ev['status']], fold[n_]['privileged']))
                 if burst:
-                    w.server.push('up', *burst)
+                    # one write = one segment: the client handles the messages back to back in one loop step
+                    w.server.push('up', b''.join(m_.serialize() for m_ in burst))
                     obs['status_bursts'] = obs.get('status_bursts', 0) + 1
                     trace.append((round(w.now, 3), 'status-burst', len(burst), ev['status']))
             elif ev['kind'] == 'priv':
